@@ -229,20 +229,6 @@ func c14setLeaf(root reflect.Value, lf c14leaf, val c14intVal) {
 	}
 }
 
-func c14getLeaf(root reflect.Value, lf c14leaf) c14intVal {
-	f := c14resolve(root, lf.steps)
-	if lf.ptr {
-		if f.IsNil() {
-			return c14intVal{nil: true}
-		}
-		f = f.Elem()
-	}
-	if lf.signed {
-		return c14intVal{u: uint64(f.Int())}
-	}
-	return c14intVal{u: f.Uint()}
-}
-
 // ---------------------------------------------------------------------------------------------------
 // value alphabets
 // ---------------------------------------------------------------------------------------------------
@@ -517,14 +503,14 @@ func c14jsonDomain(u *c14unit, lf c14leaf, v c14intVal) bool {
 // ---------------------------------------------------------------------------------------------------
 
 type c14intCase struct {
-	Part      string `json:"part"` // "ints"
-	Unit      string `json:"type"`
-	Field     string `json:"field"`
-	Value     string `json:"value"`
-	Field2    string `json:"field2,omitempty"`
-	Value2    string `json:"value2,omitempty"`
-	Mode      string `json:"mode"` // all | jsonproto | ssz
-	Step      string `json:"step"`
+	Part   string `json:"part"` // "ints"
+	Unit   string `json:"type"`
+	Field  string `json:"field"`
+	Value  string `json:"value"`
+	Field2 string `json:"field2,omitempty"`
+	Value2 string `json:"value2,omitempty"`
+	Mode   string `json:"mode"` // all | jsonproto | ssz
+	Step   string `json:"step"`
 }
 
 var c14shareLeaf = c14leaf{path: "(ParSignedData).ShareIdx", bits: 32, signed: true, share: true, wrapper: true}
